@@ -129,8 +129,20 @@ class Builder:
         if not self.quiet:
             print(*a, file=sys.stderr, flush=True)
 
+    def rel(self, path):
+        """dependency names are stored relative to their root so that a cache filled from one checkout is valid for another"""
+        if path.startswith(self.repo + "/"):
+            return "R:" + path[len(self.repo) + 1:]
+        if path.startswith(VERIF + "/"):
+            return "V:" + path[len(VERIF) + 1:]
+        return "A:" + path
+
+    def absolute(self, name):
+        kind, p = name[:2], name[2:]
+        return os.path.join(self.repo, p) if kind == "R:" else os.path.join(VERIF, p) if kind == "V:" else p
+
     def key_for(self, label, src, flags, deps):
-        return sha("v3", label, " ".join(flags), file_hash(src), *[d + "=" + file_hash(d) for d in deps])
+        return sha("v4", label, " ".join(flags), file_hash(src), *[d + "=" + file_hash(self.absolute(d)) for d in deps])
 
     def compile_one(self, label, src, extra_flags=()):
         """Returns object path; raises CalledProcessError on compile failure."""
@@ -139,6 +151,8 @@ class Builder:
         if os.path.exists(depjson):
             try:
                 deps = json.load(open(depjson))
+                if deps and not deps[0][:2] in ("R:", "V:", "A:"):
+                    raise ValueError("old dependency format")
                 key = self.key_for(label, src, flags, deps)
                 obj = os.path.join(self.objdir, key + ".o")
                 if os.path.exists(obj):
@@ -161,7 +175,7 @@ class Builder:
                     os.unlink(f)
             sys.stderr.write("COMPILE ERROR in %s\n%s\n" % (src, p.stderr[-6000:]))
             raise subprocess.CalledProcessError(p.returncode, cmd)
-        deps = [d for d in parse_depfile(tmp_d) if d != os.path.realpath(src)
+        deps = [self.rel(d) for d in parse_depfile(tmp_d) if d != os.path.realpath(src)
                 and (d.startswith(self.repo) or d.startswith(VERIF))]
         key = self.key_for(label, src, flags, deps)
         obj = os.path.join(self.objdir, key + ".o")
